@@ -454,6 +454,55 @@ void ProgSleep(Env& env) {
   env.result += r + ";";
 }
 
+// every clock name of yaclib_std::chrono, by name: deadlines `Clock::now() + d` for sleep_until / wait_until /
+// try_lock_until, durations measured as differences of `Clock::now()` of the SAME clock.  Under the FIBER backend all
+// three are the virtual clock: the measured durations are virtual, hence a function of (program, seed, configuration),
+// and they are client visible (events).  Absolute clock values never reach the trace.
+template <typename Clock>
+void ClockUser(const char* name, int k, yaclib_std::timed_mutex& held, std::string& log) {
+  auto took = [](typename Clock::time_point a) {
+    return std::to_string(std::chrono::duration_cast<Ns>(Clock::now() - a).count());
+  };
+  auto a = Clock::now();
+  yaclib_std::this_thread::sleep_until(a + Ns{120 + 10 * k});
+  Ev(std::string(name) + " sleep_until took " + took(a));
+  {
+    yaclib_std::mutex m;
+    yaclib_std::condition_variable cv;
+    std::unique_lock lock{m};
+    auto b = Clock::now();
+    auto st = cv.wait_until(lock, b + Ns{300 + k});  // nobody notifies
+    Ev(std::string(name) + " wait_until " + (st == std::cv_status::timeout ? "timeout" : "signalled") + " took " + took(b));
+    auto c = Clock::now();
+    bool ok = cv.wait_until(lock, c + Ns{90}, [] { return false; });
+    Ev(std::string(name) + " wait_until(pred) " + std::to_string(ok) + " took " + took(c));
+  }
+  auto d = Clock::now();
+  bool got = held.try_lock_until(d + Ns{500 + 7 * k});  // the root holds it throughout
+  Ev(std::string(name) + " try_lock_until " + std::to_string(got) + " took " + took(d));
+  if (got) held.unlock();
+  log += name[1];
+}
+
+void ProgClocks(Env& env) {
+  yaclib_std::timed_mutex held;
+  held.lock();
+  std::string log;
+  const auto start = yaclib_std::chrono::steady_clock::now();
+  std::vector<yaclib_std::thread> ts;
+  for (int k = 0; k < env.size; ++k) {
+    ts.emplace_back([&, k] { ClockUser<yaclib_std::chrono::steady_clock>("steady_clock", 3 * k, held, log); });
+    ts.emplace_back([&, k] { ClockUser<yaclib_std::chrono::system_clock>("system_clock", 3 * k + 1, held, log); });
+    ts.emplace_back([&, k] { ClockUser<yaclib_std::chrono::high_resolution_clock>("high_resolution_clock", 3 * k + 2, held, log); });
+  }
+  for (auto& t : ts) t.join();
+  held.unlock();
+  auto total = std::chrono::duration_cast<Ns>(yaclib_std::chrono::steady_clock::now() - start).count();
+  std::string r = "clocks log=" + log + " total=" + std::to_string(total);
+  Ev(r);
+  env.result += r + ";";
+}
+
 // coroutines hopping between a pool and a strand, awaiting each other
 yaclib::Future<int> CoWorker(yaclib::IExecutor& pool, yaclib::IExecutor& strand, yaclib_std::atomic<int>& word, int k) {
   co_await yaclib::On(pool);
@@ -504,12 +553,14 @@ const std::vector<ProgEntry>& Programs() {
     {"timed", {ProgTimed}, {}},
     {"coro", {ProgCoro}, {}},
     {"sleep", {ProgSleep}, {}},
+    {"clocks", {ProgClocks}, {}},
     {"all", {ProgCas, ProgPool, ProgStrand, ProgTimed, ProgCoro}, {}},
     // two-phase programs for the checkpoint / restore experiment (all threads of phase 1 are joined at the checkpoint)
     {"mixA", {ProgCas, ProgPool}, {ProgStrand, ProgTimed, ProgCas}},
     {"mixB", {ProgTimed, ProgStrand}, {ProgCoro, ProgPool, ProgCas}},
     {"mixC", {ProgCoro}, {ProgCas, ProgTimed, ProgStrand, ProgPool}},
     {"mixD", {ProgCas}, {ProgSleep, ProgCas, ProgTimed}},
+    {"mixE", {ProgTimed, ProgCas}, {ProgClocks, ProgCas, ProgSleep}},
   };
   return kPrograms;
 }
